@@ -42,6 +42,8 @@ UNIVERSE = [
     dict(ident="Foo2", imports=[], block="export type Foo2 = \"a\" | \"b\";"),
     dict(ident="a", imports=[("./x", ["X"])], block="export type a = Array<X>;"),
     dict(ident="Été", imports=[("./é", ["É"])], block="/** non-ASCII */\nexport type Été = É;"),
+    # documentation quoting the declaration of a file-mate, name and all
+    dict(ident="Q", imports=[], block="/** like `export type Foo2 = ..`, and export type B <T> too */\nexport type Q = null;"),
 ]
 # known classes (each makes an item ill-formed for the theorem; Coq decides membership)
 KF_UNIVERSE = [
@@ -220,7 +222,7 @@ def run(ctx):
         "evaluations": len(hs_all) + mal["pairs"] + thr["runs"],
         "distinct_nontrivial": len({tuple(h) for h in hs_all if len(set(h)) >= 2}),
         "traces_validated_against_impl": thr["traces_valid"],
-        "rule": "all permutations of all subsets (hence all prefixes) of size <= %d of an %d-item universe sharing one file (doc comments, multi-line declarations, prefix names A/Ab/A1, a generic Foo<T> next to Foo2 (digits sort below `<`), generic keys, overlapping import groups, non-ASCII), each run through the real export_and_merge on a real file (every second one over stale content), plus %d random histories with repetitions, plus histories touching the %d known classes; non-trivial = at least two distinct items (a merge happened)" % (
+        "rule": "all permutations of all subsets (hence all prefixes) of size <= %d of an %d-item universe sharing one file (doc comments, multi-line declarations, documentation quoting a file-mate's `export type <Name> `, prefix names A/Ab/A1, a generic Foo<T> next to Foo2 (digits sort below `<`), generic keys, overlapping import groups, non-ASCII), each run through the real export_and_merge on a real file (every second one over stale content), plus %d random histories with repetitions, plus histories touching the %d known classes; non-trivial = at least two distinct items (a merge happened)" % (
             nmax, len(UNIVERSE), 300 if ctx.quick else 3000, len(KF_UNIVERSE)),
         "samples": [dict(history=hs_all[j], idents=[items[i]["ident"] for i in hs_all[j]], final_file=impl[j][1:]) for j in (len(hs_all) // 3,)],
         "correspondence": {"histories": len(hs_all), "digest_chunks": nchunks, "suspects": len(suspects), "confirmed_breaks": len(corr_breaks)},
